@@ -13,7 +13,7 @@ for d in seeded/*/; do
   if ! git -C /repo apply --check "$(realpath "$p")" 2>/dev/null; then echo "$id: does not apply to /repo HEAD (see meta.json)"; continue; fi
   git -C /repo apply "$(realpath "$p")"
   t0=$(date +%s)
-  out="$(./check C08 --tier quick --no-evidence --run-timeout 25 2>&1)"; rc=$?
+  out="$(./check C08 --tier quick --no-evidence --run-timeout 25 --first-only 2>&1)"; rc=$?
   t1=$(date +%s)
   git -C /repo checkout -q -- . ; git -C /repo clean -fdq visitor plugin
   strata="$(echo "$out" | grep -E "^--- " | sed -E 's/^--- ([DTR]) violated.*\(([a-z-]+)[^)]*\), found in stratum ([a-z]+)/\1:\3/' | sort | uniq -c | awk '{printf "%s x%s  ", $2, $1}')"
